@@ -102,6 +102,29 @@ def family(name, n):
     if name.startswith('name-') and name[5:] in CONTENT:
         body = CONTENT[name[5:]](n)
         return [], b'\x10' + int_octets(len(body), 7) + body + b'\x01v', {'limit': big}
+    # integers carrying redundant zero digits (legal on the wire, never produced by this library's encoder), many of them
+    if name == 'size-updates-padded':
+        return [], b'\x3f\x80\x00' * n, {}
+    if name == 'literals-padded-name-index':
+        return [], b'\x0f\x80\x00\x00' * n, {'limit': big}
+    if name == 'indexed-padded':
+        setup = b''.join(bytes([0x40, 0x01, 1 + i, 0x00]) for i in range(70))
+        return [setup], b'\xff\x80\x00' * n, {'limit': big}
+    if name == 'string-lengths-padded':
+        return [], (b'\x00\x7f\x80\x00' + b'a' * 127 + b'\x7f\x80\x00' + b'v' * 127) * (n // 64 + 1), {'limit': big}
+    # TINY blocks that merely DECLARE something large (n = the declared number): cost must follow the block, not the claim
+    if name == 'declared-plain-value':
+        return [], b'\x00\x01a' + int_octets(n, 7) + b'vvvv', {'limit': big}
+    if name == 'declared-plain-name':
+        return [], b'\x00' + int_octets(n, 7) + b'nnnn', {'limit': big}
+    if name == 'declared-huffman-value':
+        return [], b'\x00\x01a' + int_octets(n, 7, 0x80) + b'\x1c\x1c\x1c\x1c', {'limit': big}
+    if name == 'declared-huffman-name':
+        return [], b'\x40' + int_octets(n, 7, 0x80) + b'\x1c\x1c\x1c\x1c', {'limit': big}
+    if name == 'declared-index':
+        return [], b'\xff' + int_octets(n, 8)[1:] if n >= 255 else b'\xbe', {'limit': big}
+    if name == 'declared-table-size':
+        return [], int_octets(n, 5, 0x20) + b'\x82', {'limit': big, 'allowed': 1 << 40}
     if name.startswith('text-'):          # the same family decoded in text mode (raw=False, the default)
         a, b, kw = family(name[5:], n)
         return a, b, dict(kw, raw=False)
@@ -129,7 +152,8 @@ FAMILIES = ['index-run', 'index-run-zero', 'namelen-run', 'valuelen-run', 'updat
             'value-inner-blanks', 'value-inner-tabs', 'value-leading-blanks', 'value-tokens', 'value-inner-nuls', 'value-inner-digits',
             'value-inner-upper', 'value-crlf', 'value-colons', 'huffman-value-inner-blanks', 'name-value-inner-blanks', 'name-value-inner-upper',
             'text-value-inner-blanks', 'text-value-nonascii', 'text-value-tokens', 'text-plain-literals', 'text-indexed-fields', 'text-huffman-literals',
-            'text-name-value-inner-upper']
+            'text-name-value-inner-upper', 'size-updates-padded', 'literals-padded-name-index', 'indexed-padded', 'string-lengths-padded']
+TINY = ['declared-plain-value', 'declared-plain-name', 'declared-huffman-value', 'declared-huffman-name', 'declared-index', 'declared-table-size']
 
 
 def main():
@@ -151,7 +175,25 @@ def main():
         return d
 
     out = {'family': name, 'n': n, 'len': len(block)}
-    if mode == 'time-ref':
+    if mode == 'tiny':
+        # a block of a few octets: CPU time and peak traced memory of the call
+        import tracemalloc
+        d = fresh()
+        tracemalloc.start()
+        t = _utime()
+        try:
+            r = d.decode(block, raw=kw.get('raw', True)); res = 'ok %d' % len(r)
+        except HPACKDecodingError as e:
+            res = 'err ' + type(e).__name__
+        except MemoryError:
+            res = 'esc MemoryError'
+        except Exception as e:
+            res = 'esc ' + type(e).__name__
+        dt = _utime() - t
+        peak = tracemalloc.get_traced_memory()[1]
+        tracemalloc.stop()
+        out.update(time=dt, peak=peak, result=res)
+    elif mode == 'time-ref':
         # the same measurement on the harness's reference decoder (control for machine load; never the library)
         from refmodel import RefDecoder, RefError
         best = None
